@@ -90,6 +90,22 @@ CHECKS = {
         note=COMMON_NOTE + "A signal interrupting select() is counted as a full quantum by the code; outside the quantifier.",
         technique="Coq proof (accept-loop transition system with regenerated constants; drain invariant of the pool LTS) + timed listen() scenarios",
         design="5/C15"),
+    "C11": dict(
+        text="Theorems: the interface-name lexer (hand-modelled rule shape, character classes regenerated from the grammar) consumes a whole string iff it is a reverse-domain name of >= 2 "
+             "elements over [A-Za-z0-9-], none beginning or ending with a hyphen, the first beginning with a letter (both directions, all strings); a definition is rejected for duplicates iff two "
+             "members share a name across methods/types/errors, and every duplicated name is named. Tie: lexical tables/literals translated, recursive rules compared textually with the modelled "
+             "ones; model parser vs IDL::try_from on grammar-derived texts with random trivia, token-level near misses, every interface name over {a,B,1,-,.} to length 5 (thorough 7), type "
+             "expressions, all kind x kind collisions. The general language theorem (Renders <-> parse) is proved for the type sub-grammar when coq/theories/TypeProofs.v is present.",
+        note=COMMON_NOTE + "rust-peg's operational semantics is modelled (ordered choice, greedy repetition, separator back-off).",
+        technique="Coq proof (lexer = declarative name grammar; duplicate folding) over translated lexical tables + differential execution incl. exhaustive short-name enumeration",
+        design="5/C11"),
+    "C12": dict(
+        text="Theorem: for every input and every position 0..length the parser may report, the line computed from it exists in the input split at '\\n' and the column lies within it (so the "
+             "lookup in try_from cannot fail and the caret padding is bounded). The model parser terminates by construction (explicit fuel, never exhausted on any case run). "
+             "PARTIAL: no-panic, wall-clock termination and stack depth at nesting <= 200 are runtime facts decided by running every case under catch_unwind with a time limit on a default-stack thread.",
+        note=COMMON_NOTE + "That rust-peg reports some position <= length on a character boundary is trusted.",
+        technique="Coq proof (line/column lemma for all positions) + differential execution on prefixes, mutations, random Unicode, nesting to 200",
+        design="5/C12"),
 }
 
 ALL = ["C%02d" % i for i in range(1, 21)]
